@@ -64,9 +64,18 @@ pub fn build_assumptions(model: &Model, raw: &[(u16, u8, u16)]) -> Vec<Pred> {
 
 pub fn solve_case_strategy(p: &GenParams, paths: &'static [u8]) -> BoxedStrategy<SolveCase> {
     let pp = p.clone();
+    // one case in eight is a scheduling model: several cumulative tasks (about half of them nearly fixed) and
+    // a few side constraints, the shape which the incremental time-table propagators need to go wrong
+    let mut pp_cum = p.clone();
+    pp_cum.kinds = vec![(K::Cumulative, 10), (K::BinLe, 2), (K::BinNe, 2), (K::LinLe, 1)];
+    pp_cum.max_tasks = 6;
+    pp_cum.max_dur = 5;
+    pp_cum.small_dom_permille = 550;
+    pp_cum.max_dom = 7;
+    pp_cum.pred_literals = false;
     (raw_model_strategy(p), raw_config_strategy(), raw_extras())
         .prop_map(move |((rv, rc), rcfg, ex)| {
-            let model = build_model(&pp, &rv, &rc);
+            let model = if ex.0 % 8 == 7 { build_model(&pp_cum, &rv, &rc) } else { build_model(&pp, &rv, &rc) };
             let mut cfg = build_config(&rcfg);
             let path = paths[(ex.0 as usize) % paths.len()];
             if cfg.no_learning && (path == 2 || path == 4) {
